@@ -52,12 +52,16 @@ def extraction_pairs(ctx: Ctx) -> None:
     for cname, m, keytext in (('Bus', '_extract_iloc', 'key'), ('Bus', '_extract_loc', 'self._series._index._loc_to_iloc(key)')):
         f = prog.method(cname, m, inherited=False)
         ex = roles.Expander(f.node)
-        ctor = [c for c in walk_local(f.node) if isinstance(c, ast.Call) and call_name(c) == 'Series' and c.args]
+        first_prm = (prog.method('Series', '__init__', inherited=False).params + ['self', 'values'])[1]     # the data may be given by its keyword
+
+        def data_of(c: ast.Call) -> tp.Optional[ast.expr]:
+            return c.args[0] if c.args else kwarg(c, first_prm)
+        ctor = [c for c in walk_local(f.node) if isinstance(c, ast.Call) and call_name(c) == 'Series' and data_of(c) is not None]
         problems = []
         if not ctor:
             problems.append('no Series is built for the derived Bus')
         for c in ctor:
-            data = ex.expand(c.args[0])
+            data = ex.expand(data_of(c))
             labels = ex.expand(kwarg(c, 'index'))
             if data != {f'self._series.values[{keytext}]'}:
                 problems.append(f'frames are taken as {sorted(data)}')
